@@ -305,6 +305,13 @@ func getInitialTimeForScheduling(
 func getNext(jobConfig *execution.JobConfig, expr cron.Expression, fromTime time.Time) time.Time {
 	next := expr.Next(fromTime)
 
+	// Cannot schedule before NotBefore.
+	if spec := jobConfig.Spec.Schedule; spec != nil && spec.Constraints != nil {
+		if nbf := spec.Constraints.NotBefore; !nbf.IsZero() && !next.IsZero() && next.Before(nbf.Time) {
+			next = expr.Next(nbf.Time.Add(-time.Nanosecond).In(fromTime.Location()))
+		}
+	}
+
 	// Cannot schedule after NotAfter.
 	if spec := jobConfig.Spec.Schedule; spec != nil && spec.Constraints != nil {
 		if naf := spec.Constraints.NotAfter; !naf.IsZero() && next.After(naf.Time) {
